@@ -27,7 +27,8 @@ CLAIMED['C14'] = {
             'preserve the representation invariant wf = BST order + exact cached sizes + weight balance at every node (DELTA=3, GAMMA=2) + '
             'len == node count, and that their result equals the corresponding finite-map operation on the abstract view, for all trees '
             'and all keys, with termination, overflow- and panic-freedom: insert, remove, get, get_mut (prophecy cursor through Rc::make_mut), '
-            'contains_key, len, is_empty, clear, union and difference (callbacks receive (key, left value, right value)), the entry API, all of set.rs, '
+            'contains_key, len, is_empty, clear, union and difference (callbacks receive (key, left value, right value)), the entry API, all of set.rs '
+            'including WBTreeSet::iter and WBTreeSetIter::next, '
             'shared iteration (Iter::next obeys the iterator laws in every state, iter() yields exactly the entries in increasing key order), '
             'and the height bound 4^h <= 3^h (n+1). Outside the proved set: IterMut/iter_mut (unsafe raw pointers) and mapped -- covered only '
             'by the bounded native sweep against BTreeMap on clone families, which is reported separately and never counted as proof.',
@@ -40,11 +41,13 @@ CLAIMED['C14'] = {
 CLAIMED['C08'] = {
     'category': 'proof',
     'text': 'Verus proves on the real text of prefix_tree.rs, for every arity 0..9 and for new/insert/contains/remove/is_empty/clear/get/get_mut/'
-            'union/difference/insert_restriction/remove_restriction, that the container equals the corresponding operation on a mathematical set '
+            'union/difference/insert_restriction/remove_restriction/mapped, that the container equals the corresponding operation on a mathematical set '
             'of tuples and preserves the invariant "inner map well-formed, every subtree well-formed, no key maps to an empty subtree" (on which '
-            'is_empty and prefix lookups rely); the entry API and set.rs are proved in the same run on top of the WBTreeMap core contracts. '
-            'Iteration order/duplicates, prefix iteration and mapped cannot be put under a contract (iterator adapters) and are covered by the '
-            'bounded native sweep against BTreeSet, reported separately.',
+            'is_empty and prefix lookups rely); mapped (element-wise mapping through graphs, loops over the proved WBTreeMap/WBTreeSet iterators) returns '
+            'exactly the set of component-wise images, dropping tuples with a component outside a map; the entry API and set.rs (including its iterator) '
+            'are proved in the same run on top of the WBTreeMap core contracts. '
+            'Iteration order/duplicates of PrefixTreeN::iter and prefix iteration (iter_restrictions) cannot be put under a contract (iterator adapters '
+            'map/flat_map) and are covered by the bounded native sweep against BTreeSet, reported separately.',
     'design_ref': '§5.3, §6 C08',
     'note': 'Rests on the WBTreeMap core contracts (assumed here, discharged in C14 where listed), structural Clone, pure callbacks. '
             'Bounded part: coverage.bounded_parts.',
